@@ -67,8 +67,9 @@ class Report:
         r = self.by_rule.setdefault(rule, {'obligations': 0, 'discharged': 0})
         r['obligations'] += 1
         r['discharged'] += 1
+        fresh = (rule, subject) not in self.distinct
         self.distinct.add((rule, subject))
-        if detail is not None and len(self.samples) < 40 and sum(1 for s in self.samples if s.get('rule') == rule) < 3:
+        if fresh and detail is not None and len(self.samples) < 40 and sum(1 for s in self.samples if s.get('rule') == rule) < 3:
             self.samples.append({'rule': rule, 'subject': subject, 'verdict': 'discharged', 'detail': detail})
 
     def fail(self, rule, key_parts, message, where=None, detail=None):
